@@ -155,3 +155,89 @@ def from_points_2d(ctx):
     ctx.ensure("kind", type(T) is gt.Transformation and tuple(T.shape) == (3, 3))
     for i in range(4):
         ctx.ensure("maps-source-%d-to-target-%d" % (i, i), ctx.minors_zero(geo.matvec(tolist(T.array), tolist(A[i])), tolist(B[i])))
+
+
+# ------------------------------------------------------------------------------------------------ bounded: numeric constructors
+@case("C08", "constructors.numeric.lattice", [], kind="bounded",
+      functions=["geometer.transformation.reflection", "geometer.transformation.rotation", "geometer.transformation.translation", "geometer.transformation.scaling",
+                 "geometer.transformation.Transformation.from_points", "geometer.transformation.Transformation.from_points_and_conics"],
+      bound="reflection at 2D lines / 3D planes with 9 normals x offsets {0, +-1e-3, +-3e-3, 1e-2, 0.5, 3, -40} (mirrors through and NEAR the origin) x 6 points against the closed form; "
+            "3D rotations about 8 axis points given by 3 homogeneous representatives (negative ones included) x 5 angles against Rodrigues' formula; translation by points in 4 representatives; "
+            "3D from_points on 6 frames")
+def constructors_numeric(ctx):
+    import itertools
+
+    import geometer as g
+    from geometer.transformation import reflection, rotation, translation, Transformation
+
+    offsets = [0, 1e-3, -1e-3, 3e-3, -3e-3, 1e-2, 0.5, 3, -40]
+    normals2 = [(0, 1), (1, 0), (3, 4), (1, -1), (-2, 1), (1, 2), (5, -12), (-1, -1), (0.3, 0.4)]
+    pts2 = [(0, 0), (1, 2), (-3, 0.5), (2, -1), (10, 7), (0.001, -0.002)]
+    for n, d in itertools.product(normals2, offsets):
+        h = g.Line(n[0], n[1], d)
+        r = reflection(h)
+        nn = n[0] ** 2 + n[1] ** 2
+        ok, bad = True, None
+        for p in pts2:
+            s = (n[0] * p[0] + n[1] * p[1] + d) / nn
+            want = (p[0] - 2 * s * n[0], p[1] - 2 * s * n[1])
+            got = (r * g.Point(*p)).normalized_array[:2]
+            if not np.allclose(got, want, atol=1e-9, rtol=1e-9):
+                ok, bad = False, dict(point=p, got=np.asarray(got).tolist(), want=want)
+                break
+        ctx.ensure("reflection-2d==closed-form", ok, witness=dict(line=(n[0], n[1], d), bad=bad))
+    normals3 = [(0, 0, 1), (1, 0, 0), (1, 2, 2), (1, -1, 1), (-2, 1, 0), (2, 3, 6), (0, 3, -4), (-1, -1, -1), (0.2, 0.3, 0.6)]
+    pts3 = [(0, 0, 0), (1, 2, 3), (-3, 0.5, 1), (2, -1, -2), (10, 7, -4), (0.001, -0.002, 0.003)]
+    for n, d in itertools.product(normals3, offsets):
+        h = g.Plane(n[0], n[1], n[2], d)
+        r = reflection(h)
+        nn = sum(x * x for x in n)
+        ok, bad = True, None
+        for p in pts3:
+            s = (sum(a * b for a, b in zip(n, p)) + d) / nn
+            want = tuple(p[i] - 2 * s * n[i] for i in range(3))
+            got = (r * g.Point(*p)).normalized_array[:3]
+            if not np.allclose(got, want, atol=1e-9, rtol=1e-9):
+                ok, bad = False, dict(point=p, got=np.asarray(got).tolist(), want=want)
+                break
+        ctx.ensure("reflection-3d==closed-form", ok, witness=dict(plane=(*n, d), bad=bad))
+    # rotation about an axis given by any homogeneous representative of the axis point (Rodrigues)
+    axes = [(0, 0, 1), (1, 0, 0), (1, 1, 1), (1, 2, 2), (-1, 2, 0), (2, -3, 6), (0, -1, 1), (3, 0, -4)]
+    for ax in axes:
+        u = np.array(ax, dtype=float)
+        u /= np.linalg.norm(u)
+        K = np.array([[0, -u[2], u[1]], [u[2], 0, -u[0]], [-u[1], u[0], 0]])
+        for ang in (0.3, -1.1, 2.0, np.pi / 2, 3.0):
+            # the property fixes the turning angle |a|, not the orientation convention: either sense is accepted, but the same one for every representative
+            Rp = np.eye(3) + np.sin(ang) * K + (1 - np.cos(ang)) * K @ K
+            Rm = np.eye(3) - np.sin(ang) * K + (1 - np.cos(ang)) * K @ K
+            first = None
+            for scale in (1.0, 2.5, -1.0, -3.0):
+                t = rotation(ang, axis=g.Point(np.array(list(ax) + [1.0]) * scale))
+                m = np.asarray(t.array, dtype=float)
+                m = m / m[3, 3]
+                first = m if first is None else first
+                ok = (np.allclose(m[:3, :3], Rp, atol=1e-9) or np.allclose(m[:3, :3], Rm, atol=1e-9)) and np.allclose(m, first, atol=1e-9) \
+                    and np.allclose(m[:3, 3], 0, atol=1e-12) and np.allclose(m[3, :3], 0, atol=1e-12)
+                ctx.ensure("rotation-3d==rodrigues(any-representative-of-the-axis-point)", ok, witness=dict(axis=ax, angle=float(ang), scale=scale))
+    for v in [(1, 2), (-3, 0.5), (0, 4)]:
+        for scale in (1.0, 2.0, -1.0, -0.5):
+            t = translation(g.Point(np.array(list(v) + [1.0]) * scale))
+            got = (t * g.Point(5, -7)).normalized_array[:2]
+            ctx.ensure("translation(point)==affine-offset(any-representative)", np.allclose(got, (5 + v[0], -7 + v[1]), atol=1e-12), witness=dict(offset=v, scale=scale, got=np.asarray(got).tolist()))
+    for v in [(1, 2, 3), (-3, 0.5, 2)]:
+        for scale in (1.0, 2.0, -1.0):
+            t = translation(g.Point(np.array(list(v) + [1.0]) * scale))
+            got = (t * g.Point(5, -7, 1)).normalized_array[:3]
+            ctx.ensure("translation(point)==affine-offset(any-representative)", np.allclose(got, (5 + v[0], -7 + v[1], 1 + v[2]), atol=1e-12), witness=dict(offset=v, scale=scale, got=np.asarray(got).tolist()))
+    # from_points in 3D: five points in general position onto five others
+    rnd = np.random.RandomState(4)
+    for k in range(6):
+        while True:
+            A = rnd.randint(-4, 5, size=(5, 3)).astype(float)
+            B = rnd.randint(-4, 5, size=(5, 3)).astype(float)
+            hom = lambda X: np.hstack([X, np.ones((5, 1))])
+            if all(abs(np.linalg.det(np.delete(hom(X), i, axis=0))) > 0.5 for X in (A, B) for i in range(5)):
+                break
+        t = Transformation.from_points(*[(g.Point(*a), g.Point(*b)) for a, b in zip(A, B)])
+        ctx.ensure("from_points-3d-maps-the-frame", all((t * g.Point(*a)) == g.Point(*b) for a, b in zip(A, B)), witness=dict(source=A.tolist(), target=B.tolist()))
